@@ -432,9 +432,11 @@ class Node:
     def _assign_peer_connection(self, conn: PeerConnection):
         if not conn.host_identity:
             return
-        if conn.host_identity not in self.peers:
+        # the peer this connection was dialled for or accepted as; the
+        # advertised identity alone must not attach it to another peer
+        peer = self._find_connection_peer(conn)
+        if not peer:
             return
-        peer = self.peers[conn.host_identity]
         peer.disconnect_reason = None
         if not peer.connection:
             peer.connection = conn
